@@ -24,11 +24,12 @@ def gen(ctx, n):
                       'mode': r.choice(['hooks', 'hooks', 'ghost', 'functorch']), 'n': nsteps, 'cut': r.randint(0, nsteps),
                       'sigma': r.choice([0.8, 1.0, 1.3]), 'C': r.choice([0.5, 1.0]), 'pass_opt': r.random() < 0.85, 'save_opt': True,
                       'early_save': r.choice([None, 0, 1])})
+        cases[-1]['carry'] = cases[-1]['early_save'] is not None and r.random() < 0.5
     # every cut point of one longer history, per accountant
     for acc in (ACCS if ctx.thorough else ACCS[:2]):
         for cut in range(0, 6):
             cases.append({'seed': 11, 'acc': acc, 'inner': 'adam', 'sched_n': 'none', 'sched_c': 'none', 'mode': 'hooks', 'n': 5, 'cut': cut,
-                          'sigma': 1.0, 'C': 1.0, 'pass_opt': True, 'save_opt': True, 'early_save': 1 if cut >= 3 else None})
+                          'sigma': 1.0, 'C': 1.0, 'pass_opt': True, 'save_opt': True, 'early_save': 1 if cut >= 3 else None, 'carry': cut >= 4})
     return cases
 
 
@@ -96,7 +97,7 @@ def run(ctx, gen_status):
             if rr.get('error') or 'keys' not in rr:
                 continue
             flags = (bool(c['save_opt']), c['sched_n'] != 'none', c['sched_c'] != 'none')
-            if sorted(rr['keys']) != want[flags]:
+            if sorted(k for k in rr['keys'] if k != 'user_entry') != want[flags]:      # 'user_entry': the caller's own entry in a carried checkpoint_dict
                 bad = 'checkpoint keys %s, generated model %s for flags %s' % (rr['keys'], want[flags], flags)
                 ctx.fail('checkpoint-keys', bad, c)
                 break
